@@ -62,7 +62,7 @@ func (h *HookServer) serve(w http.ResponseWriter, r *http.Request) {
 	d2 := json.NewDecoder(strings.NewReader(string(ans.Body)))
 	d2.UseNumber()
 	if err := d2.Decode(&resp); err == nil {
-		e.HookResp = fixNumbers(resp)
+		e.HookResp = canonResp(fixNumbers(resp))
 	}
 	if h.Sim != nil {
 		h.Sim.AppendHook(e)
@@ -72,6 +72,25 @@ func (h *HookServer) serve(w http.ResponseWriter, r *http.Request) {
 	}
 	w.WriteHeader(ans.Code)
 	w.Write(ans.Body)
+}
+
+// canonResp: objects listed in a hook answer (children / attachments) are read by the model in the same canonical form
+// as every other object (a last-applied annotation copied from an observed object is decoded).
+func canonResp(v interface{}) interface{} {
+	m, ok := v.(map[string]interface{})
+	if !ok {
+		return v
+	}
+	for _, k := range []string{"children", "attachments"} {
+		if list, ok := m[k].([]interface{}); ok {
+			for i, o := range list {
+				if om, ok := o.(map[string]interface{}); ok {
+					list[i] = CanonObj(om)
+				}
+			}
+		}
+	}
+	return m
 }
 
 // canonDeep applies CanonObj to every Kubernetes object nested in a hook request
